@@ -8,21 +8,21 @@
 (***************************************************************************)
 EXTENDS TraceBase, Integers, VPrims
 VARIABLES arrived, consumed, waiting, eof, rerr, reported,   \* reader (reported: end-of-stream or an error has been reported)
-          written, handed, failed, failcbs, reserved,    \* writer
+          written, handed, failed, failcbs, reserved, werr,    \* writer (werr: a write-side call reported an allocation failure)
           rxq, txq, incb, ralive, walive
-vars == <<l, arrived, consumed, waiting, eof, rerr, reported, written, handed, failed, failcbs, reserved, rxq, txq, incb, ralive, walive>>
+vars == <<l, arrived, consumed, waiting, eof, rerr, reported, written, handed, failed, failcbs, reserved, werr, rxq, txq, incb, ralive, walive>>
 NoWait == [id |-> 0, k |-> 0]
 RxByte(o) == (o * 7 + 1) % 251              \* reader stream, descriptor 0
 TxByte(o) == (o * 11 + 3) % 251             \* writer stream
 Init0 == /\ arrived = 0 /\ consumed = 0 /\ waiting = NoWait /\ eof = FALSE /\ rerr = FALSE /\ reported = FALSE
-         /\ written = 0 /\ handed = 0 /\ failed = FALSE /\ failcbs = 0 /\ reserved = -1
+         /\ written = 0 /\ handed = 0 /\ failed = FALSE /\ failcbs = 0 /\ reserved = -1 /\ werr = FALSE
          /\ rxq = <<>> /\ txq = <<>> /\ incb = 0 /\ ralive = FALSE /\ walive = FALSE
 Init == l = 1 /\ Init0
 TReset == /\ IsEvent("reset") /\ arrived' = 0 /\ consumed' = 0 /\ waiting' = NoWait /\ eof' = FALSE /\ rerr' = FALSE /\ reported' = FALSE
-          /\ written' = 0 /\ handed' = 0 /\ failed' = FALSE /\ failcbs' = 0 /\ reserved' = -1
+          /\ written' = 0 /\ handed' = 0 /\ failed' = FALSE /\ failcbs' = 0 /\ reserved' = -1 /\ werr' = FALSE
           /\ rxq' = <<>> /\ txq' = <<>> /\ incb' = 0 /\ ralive' = FALSE /\ walive' = FALSE
 RVars == <<arrived, consumed, waiting, eof, rerr, reported, ralive>>
-WVars == <<written, handed, failed, failcbs, reserved, walive>>
+WVars == <<written, handed, failed, failcbs, reserved, werr, walive>>
 Keep(v) == UNCHANGED v
 
 Consume(q, ans, ret) ==
@@ -69,18 +69,21 @@ TWaitCancel == /\ IsEvent("wait_cancel") /\ ralive /\ waiting' = NoWait
 
 \* ------------------------------- writer -------------------------------
 TWInit == /\ IsEvent("winit") /\ ~walive /\ (Ev.ok \/ Ev.inj > 0) /\ walive' = Ev.ok
-          /\ Keep(<<written, handed, failed, failcbs, reserved, rxq, txq, incb>>) /\ Keep(RVars)
+          /\ Keep(<<written, handed, failed, failcbs, reserved, werr, rxq, txq, incb>>) /\ Keep(RVars)
 \* after the first transport failure later writes are discarded silently
 TWrite == /\ IsEvent("nb_write") /\ walive /\ reserved = -1
           /\ IF Ev.rc = 0 THEN written' = (IF failed THEN written ELSE Ev.woff + Ev.len) /\ (~failed => Ev.woff = written)
              ELSE Ev.rc = -1 /\ Ev.inj > 0 /\ Keep(written)
+          /\ werr' = (werr \/ Ev.rc # 0)
           /\ Keep(<<handed, failed, failcbs, reserved, walive, rxq, txq, incb>>) /\ Keep(RVars)
 TReserve == /\ IsEvent("nb_reserve") /\ walive /\ reserved = -1
             /\ IF Ev.ok THEN reserved' = Ev.len ELSE Ev.inj > 0 /\ Keep(reserved)
+            /\ werr' = (werr \/ ~Ev.ok)
             /\ Keep(<<written, handed, failed, failcbs, walive, rxq, txq, incb>>) /\ Keep(RVars)
 TWConsume == /\ IsEvent("nb_consume") /\ walive /\ reserved >= Ev.len /\ reserved' = -1
              /\ (Ev.rc = 0 \/ Ev.inj > 0)
              /\ written' = (IF failed THEN written ELSE Ev.woff + Ev.len) /\ (~failed => Ev.woff = written)
+             /\ werr' = (werr \/ Ev.rc # 0)
              /\ Keep(<<handed, failed, failcbs, walive, rxq, txq, incb>>) /\ Keep(RVars)
 \* the peer receives a prefix of the concatenation of all writes, in call order; nothing after a failure
 TSend == /\ IsEvent("send") /\ Ev.fd = 1 /\ walive /\ ~failed
@@ -90,11 +93,11 @@ TSend == /\ IsEvent("send") /\ Ev.fd = 1 /\ walive /\ ~failed
          /\ handed' = handed + (IF Ev.ret > 0 THEN Ev.ret ELSE 0)
          /\ failed' = (Ev.ans = "ERR")
          /\ txq' = Consume(txq, Ev.ans, Ev.ret)
-         /\ Keep(<<written, failcbs, reserved, walive, rxq, incb>>) /\ Keep(RVars)
+         /\ Keep(<<written, failcbs, reserved, werr, walive, rxq, incb>>) /\ Keep(RVars)
 \* the failure callback fires once, after the first transport failure (or a refused allocation, C14)
 TFailCb == /\ IsEvent("fail_cb") /\ walive /\ failcbs = 0 /\ (failed \/ Ev.inj > 0)
            /\ failcbs' = 1 /\ failed' = TRUE
-           /\ Keep(<<written, handed, reserved, walive, rxq, txq, incb>>) /\ Keep(RVars)
+           /\ Keep(<<written, handed, reserved, werr, walive, rxq, txq, incb>>) /\ Keep(RVars)
 
 \* end of the execution (the kernel had nothing more to offer, or the program ended)
 TEnd == /\ IsEvent("end") /\ incb = 0
@@ -102,7 +105,7 @@ TEnd == /\ IsEvent("end") /\ incb = 0
         /\ (Ev.pending_wait # 0) => (waiting.id = Ev.pending_wait /\ arrived - consumed < waiting.k /\ rxq = <<>>)
         /\ (waiting.id # 0) => Ev.pending_wait = waiting.id
         \* the whole of it when the transport never fails (and the kernel kept accepting)
-        /\ (walive /\ ~failed /\ reserved = -1 /\ txq # <<>> /\ Head(txq).kind = "DATA") => handed = written
+        /\ (walive /\ ~failed /\ ~werr /\ reserved = -1 /\ txq # <<>> /\ Head(txq).kind = "DATA") => handed = written
         /\ (failed => failcbs = 1)
         /\ Keep(<<rxq, txq, incb>>) /\ Keep(RVars) /\ Keep(WVars)
 TExit == IsEvent("exit") /\ Ev.live = 0 /\ Keep(<<rxq, txq, incb>>) /\ Keep(RVars) /\ Keep(WVars)
